@@ -359,6 +359,18 @@ Theorem C12_head_multistream_end_to_end :
     end.
 Proof. exact head_multistream_end_to_end. Qed.
 Print Assumptions C12_head_multistream_end_to_end.
+(* data handed to MultiStream / forbes / jaccard as ONE TABLE IN MEMORY is wrapped as the one-chunk stream of itself
+   (`NpDataclassStream([value], …)`) and synchronised like any stream: for contiguous data the grouped stream, hence the
+   whole trace and every consumer observation, is the same as for any cut of the same entries into chunks — so
+   C12_head_multistream_end_to_end, the guarded second-stream statement and C12_zip_second_never_misattributes hold
+   verbatim for the in-memory route *)
+Theorem C12_table_is_one_chunk_stream :
+  forall (order : list bname) (chunks : list (list (bname * Z))),
+    Forall (fun c => c <> []) chunks -> contiguous bname (map fst (List.concat chunks)) ->
+    grouped bname zlist_eqb (table_chunks chunks) = grouped bname zlist_eqb chunks
+    /\ multistream_table_trace order chunks = multistream_trace order chunks.
+Proof. exact table_is_one_chunk_stream. Qed.
+Print Assumptions C12_table_is_one_chunk_stream.
 Theorem C12_zip_second_never_misattributes :
   forall (name : Type) (neqb : name -> name -> bool), (forall a b, neqb a b = true <-> a = b) ->
   forall (P : Type) (empty : P) (order : list name) (gs : list (name * P)) (k : nat) (ys : list P),
@@ -382,7 +394,8 @@ Print Assumptions C12_model_ok_implies_spec_ok_genome.
 Theorem C12_model_ok_implies_spec_ok_multistream_partial :
   forall c : case, k_route c = 1 -> gen_ok c = true -> model_ok c = true ->
     let exp := spec_sync bname zlist_eqb ids [] (k_genome c) [] (k_groups c) in
-    all_ok (meets zll_eqb exp) (k_mslist c) = true /\ (exp <> None -> spec_ok c = true).
+    all_ok (meets zll_eqb exp) (k_mslist c) = true /\ all_ok (meets zll_eqb exp) (k_mslist_tab c) = true
+    /\ (exp <> None -> spec_ok c = true).
 Proof. exact multistream_route_link. Qed.
 Print Assumptions C12_model_ok_implies_spec_ok_multistream_partial.
 Theorem C12_model_ok_implies_spec_ok_left_join :
